@@ -32,7 +32,9 @@ def oracle(case, obs):
     r = obs["replies"][-1]
     j = stack.reply_json(r)
     if j is None or r["stop"] or not isinstance(j.get("errorcode"), int):
-        return None        # crashes on hostile values are C03's subject
+        # no verdict at all (C03 looks at the same runs for the manager's survival)
+        return {"key": "C02:no-verdict:%s" % meta["shape"], "what": "the request got no verdict: reply %r, "
+                "manager stopped: %s" % (r["raw"][:80], r["stop"]), "value": meta["value"]}
     value = meta["value"]
     allowed = sp.allowed(case["mode"], value, meta.get("known_tx"))
     # any contact counts: APDUs, but also closing / re-opening the link to repair a pending fault
